@@ -471,6 +471,146 @@ static void ilist_checks()
     stats["temporaries-iterated"] += 10;
 }
 
+// a range whose iterator returns values by copy and has no default constructor
+struct CopyRange
+{
+    std::size_t n;
+    struct iterator
+    {
+        std::size_t i;
+        explicit iterator(std::size_t i) : i(i)
+        {
+        }
+        int operator*() const
+        {
+            return val(i);
+        }
+        iterator& operator++()
+        {
+            ++i;
+            return *this;
+        }
+        bool operator!=(const iterator& o) const
+        {
+            return i != o.i;
+        }
+        bool operator==(const iterator& o) const
+        {
+            return i == o.i;
+        }
+    };
+    iterator begin() const
+    {
+        return iterator(0);
+    }
+    iterator end() const
+    {
+        return iterator(n);
+    }
+};
+
+static void custom_range_checks(std::size_t maxlen)
+{
+    for (std::size_t n = 0; n <= maxlen; ++n)
+    {
+        CopyRange c{ n };
+        std::size_t i = 0;
+        for (auto e : enumerate(c))
+        {
+            if (i >= n)
+            {
+                viol("enumerate:copy-deref-range:lvalue:visits-more-than-size", std::to_string(n));
+                break;
+            }
+            if (e.index() != i || e.value() != val(i))
+                viol("enumerate:copy-deref-range:lvalue:wrong-index-or-value", std::to_string(i));
+            ++i;
+        }
+        if (i != n)
+            viol("enumerate:copy-deref-range:lvalue:visits-fewer-than-size", std::to_string(i));
+        const CopyRange cc{ n };
+        i = 0;
+        for (auto e : enumerate(cc))
+        {
+            if (i >= n)
+                break;
+            if (e.index() != i || e.value() != val(i))
+                viol("enumerate:copy-deref-range:const:wrong-index-or-value", std::to_string(i));
+            ++i;
+        }
+        if (i != n)
+            viol("enumerate:copy-deref-range:const:visits-fewer-than-size", std::to_string(i));
+        i = 0;
+        for (auto e : enumerate(CopyRange{ n }))
+        {
+            if (i >= n)
+                break;
+            if (e.index() != i || e.value() != val(i))
+                viol("enumerate:copy-deref-range:rvalue:wrong-index-or-value", std::to_string(i));
+            ++i;
+        }
+        if (i != n)
+            viol("enumerate:copy-deref-range:rvalue:visits-fewer-than-size", std::to_string(i));
+        stats["combinations"] += 3;
+        stats["elements-visited"] += 3 * static_cast<long>(n);
+    }
+}
+
+// walking the adaptor by hand, with both increment forms of its iterator
+template <typename C>
+static void manual_walk(const std::string& kind, std::size_t n)
+{
+    C c = make<C>::of(n);
+    {
+        auto r = enumerate(c);
+        auto it = r.begin();
+        auto last = r.end();
+        std::size_t i = 0;
+        while (it != last && i <= n)
+        {
+            auto e = *it++; // post-increment yields the position before the step
+            if (e.index() != i || as_int(e.value()) != val(i))
+                viol("enumerate:" + kind + ":post-increment:wrong-index-or-value",
+                     "position " + std::to_string(i) + " index " + std::to_string(e.index()));
+            ++i;
+        }
+        if (i != n)
+            viol("enumerate:" + kind + ":post-increment:wrong-number-of-steps", std::to_string(i) + " of " + std::to_string(n));
+    }
+    {
+        auto r = enumerate(c);
+        auto it = r.begin();
+        auto last = r.end();
+        std::size_t i = 0;
+        for (; it != last && i <= n; ++it, ++i)
+        {
+            auto e = *it;
+            if (e.index() != i || as_int(e.value()) != val(i))
+                viol("enumerate:" + kind + ":pre-increment:wrong-index-or-value", std::to_string(i));
+        }
+        if (i != n)
+            viol("enumerate:" + kind + ":pre-increment:wrong-number-of-steps", std::to_string(i));
+    }
+    {
+        auto r = enumerate(make<C>::of(n));
+        auto it = r.begin();
+        auto last = r.end();
+        std::size_t i = 0;
+        while (it != last && i <= n)
+        {
+            auto e = *it++;
+            if (e.index() != i || as_int(e.value()) != val(i))
+                viol("enumerate:" + kind + ":rvalue:post-increment:wrong-index-or-value", std::to_string(i));
+            ++i;
+        }
+        if (i != n)
+            viol("enumerate:" + kind + ":rvalue:post-increment:wrong-number-of-steps", std::to_string(i));
+    }
+    stats["combinations"] += 3;
+    stats["manual-walks"] += 3;
+    stats["elements-visited"] += 3 * static_cast<long>(n);
+}
+
 template <typename F>
 static void kind_case(const std::string& name, F&& f)
 {
@@ -537,6 +677,16 @@ int main(int argc, char** argv)
     kind_case("std::array", [&] { std_array_all(std::make_index_sequence<6>{}); });
     kind_case("builtin-array", [&] { builtin_all(std::make_index_sequence<5>{}); });
     kind_case("initializer-list", [&] { ilist_checks(); });
+    kind_case("copy-deref-range", [&] { custom_range_checks(maxlen); });
+    kind_case("manual-iteration", [&] {
+        for (std::size_t n = 0; n <= maxlen; ++n)
+        {
+            manual_walk<std::vector<int>>("std::vector", n);
+            manual_walk<std::list<int>>("std::list", n);
+            manual_walk<std::map<int, int>>("std::map", n);
+            manual_walk<nitro::lang::fixed_vector<int>>("fixed_vector", n);
+        }
+    });
     std::string st = "STATS";
     for (auto& kv : stats)
         st += " " + kv.first + "=" + std::to_string(kv.second);
